@@ -187,7 +187,12 @@ pub fn campaign(ctx: &RunCtx, targets: &[&str], runs: u64) {
                 .arg("-len_control=0")
                 .arg(format!("-seed={}", 1 + ctx.seed.wrapping_mul(64).wrapping_add(k as u64) % 0x7fff_ffff))
                 .arg("-timeout=60")
-                .arg("-rss_limit_mb=6144")
+                // no RSS limit: a spawned child's peak-RSS counter starts at the parent's RSS
+                // (kernel accounting across exec), which is several GB after the generated part
+                // of a thorough run; single allocations are capped instead, and the address
+                // space limit below bounds the total
+                .arg("-rss_limit_mb=0")
+                .arg("-malloc_limit_mb=4096")
                 .arg("-print_final_stats=1")
                 .arg("-verbosity=0")
                 .arg(format!("-artifact_prefix={}/", arts.display()));
@@ -195,6 +200,16 @@ pub fn campaign(ctx: &RunCtx, targets: &[&str], runs: u64) {
                 cmd.arg(format!("-dict={}", fuzz_dir().join("oq3.dict").display()));
             }
             cmd.env("VERIF_ROOT", verif_root()).current_dir(&dir).stdout(Stdio::null()).stderr(Stdio::piped());
+            {
+                use std::os::unix::process::CommandExt;
+                unsafe {
+                    cmd.pre_exec(|| {
+                        let lim = libc::rlimit { rlim_cur: 12 << 30, rlim_max: 12 << 30 };
+                        libc::setrlimit(libc::RLIMIT_AS, &lim);
+                        Ok(())
+                    });
+                }
+            }
             match cmd.spawn() {
                 Ok(c) => children.push((k, dir, c)),
                 Err(e) => ctx.infra_errors.lock().unwrap().push(format!("cannot start {target}: {e}")),
@@ -237,6 +252,9 @@ pub fn campaign(ctx: &RunCtx, targets: &[&str], runs: u64) {
                 let Ok(data) = std::fs::read(a) else { continue };
                 if name.starts_with("timeout-") || name.starts_with("oom-") {
                     let keep = save_artifact(ctx, target, &name, &data);
+                    if std::env::var("VERIF_FUZZ_DEBUG").is_ok() {
+                        eprintln!("---- stderr of {target} p{k}:\n{}", err.lines().rev().take(40).collect::<Vec<_>>().into_iter().rev().collect::<Vec<_>>().join("\n"));
+                    }
                     ctx.infra_errors.lock().unwrap().push(format!("{target}: {} on an input of {} bytes (saved as {})", if name.starts_with("oom-") { "memory limit" } else { "60 s timeout" }, data.len(), keep.display()));
                     explained = true;
                     continue;
@@ -249,9 +267,9 @@ pub fn campaign(ctx: &RunCtx, targets: &[&str], runs: u64) {
                     .into_iter()
                     .filter(|f| f.key.starts_with(&prefix))
                     .map(|mut f| {
-                        if f.detail["input"]["source"].is_null() {
-                            f.detail = json!({"input": {"source": text}, "detail": f.detail});
-                        }
+                        // unlisted failures are minimised at text level (the replay takes text)
+                        let small = if ctx.is_known(&f.key) { text.clone() } else { minimise(target, &text, &f.key, 1500) };
+                        f.detail = json!({"input": {"source": small, "found_by": format!("libFuzzer {target}"), "original_length": text.len()}, "detail": f.detail});
                         f
                     })
                     .collect();
@@ -273,6 +291,73 @@ pub fn campaign(ctx: &RunCtx, targets: &[&str], runs: u64) {
         ctx.note(format!("libFuzzer {target}: {procs} processes x {runs} runs, {execs} executions, {retained} inputs retained as coverage-increasing"));
     }
     let _ = std::fs::remove_dir_all(&work);
+}
+
+/// Shrink a failing text while the same key keeps failing: remove statement-sized chunks (split
+/// after `;`, `}` and line breaks), then single characters; at most `budget` oracle calls.
+fn minimise(target: &str, text: &str, key: &str, budget: usize) -> String {
+    let still_fails = |t: &str| -> bool {
+        let data_target = if target == "fz_tokens" || target == "fz_text" { "fz_text" } else { "fz_sema" };
+        matches!(guarded(|| oracle(data_target, t.as_bytes())), Ok((_, fs)) if fs.iter().any(|f| f.key == key))
+    };
+    let mut calls = 0usize;
+    let mut cur = text.to_string();
+    if !still_fails(&cur) {
+        return cur;
+    }
+    let split = |t: &str| -> Vec<String> {
+        let mut v = vec![];
+        let mut c = String::new();
+        for ch in t.chars() {
+            c.push(ch);
+            if ch == ';' || ch == '\n' || ch == '}' {
+                v.push(std::mem::take(&mut c));
+            }
+        }
+        if !c.is_empty() {
+            v.push(c);
+        }
+        v
+    };
+    loop {
+        let chunks = split(&cur);
+        let mut progressed = false;
+        let mut i = 0;
+        let mut kept: Vec<String> = chunks.clone();
+        while i < kept.len() && calls < budget {
+            let mut trial = kept.clone();
+            trial.remove(i);
+            let t = trial.concat();
+            calls += 1;
+            heartbeat_tick();
+            if still_fails(&t) {
+                kept = trial;
+                progressed = true;
+            } else {
+                i += 1;
+            }
+        }
+        cur = kept.concat();
+        if !progressed || calls >= budget {
+            break;
+        }
+    }
+    // character level (only worthwhile on what is left)
+    let mut chars: Vec<char> = cur.chars().collect();
+    let mut i = 0;
+    while i < chars.len() && calls < budget && chars.len() <= 400 {
+        let mut trial = chars.clone();
+        trial.remove(i);
+        let t: String = trial.iter().collect();
+        calls += 1;
+        heartbeat_tick();
+        if still_fails(&t) {
+            chars = trial;
+        } else {
+            i += 1;
+        }
+    }
+    chars.into_iter().collect()
 }
 
 fn save_artifact(ctx: &RunCtx, target: &str, name: &str, data: &[u8]) -> PathBuf {
